@@ -72,13 +72,13 @@ pub fn c13() -> i32 {
                 replay: json!({"engine":"enum-c13","bs_bits":bs_bits,"mode":mode,"op":op,"off":off,"len":len}),
             };
             let dev = match catch_unwind(AssertUnwindSafe(|| {
-                let (d, _) = futures::executor::block_on(qcow2_rs::utils::qcow2_alloc_dev(
+                let (d, _) = crate::world::block_on(qcow2_rs::utils::qcow2_alloc_dev(
                     std::path::Path::new("sim0"),
                     crate::simio::SimIo::new(&sim, 0),
                     &params,
                 ))
                 .map_err(|e| format!("{e:?}"))?;
-                futures::executor::block_on(d.qcow2_prep_io()).map_err(|e| format!("{e:?}"))?;
+                crate::world::block_on(d.qcow2_prep_io()).map_err(|e| format!("{e:?}"))?;
                 Ok::<Dev, String>(d)
             })) {
                 Ok(Ok(d)) => d,
@@ -95,9 +95,9 @@ pub fn c13() -> i32 {
             }
             let wbuf = make_write_buf(blen / BLK * BLK + BLK, 0x77);
             let res: Result<Result<usize, String>, String> = catch_unwind(AssertUnwindSafe(|| match op {
-                "read" => futures::executor::block_on(dev.read_at(&mut rbuf[..len], off)).map_err(|e| format!("{e:?}")),
-                "write" => futures::executor::block_on(dev.write_at(&wbuf[..len], off)).map(|_| len).map_err(|e| format!("{e:?}")),
-                _ => futures::executor::block_on(dev.discard(off, len as u64)).map(|_| 0).map_err(|e| format!("{e:?}")),
+                "read" => crate::world::block_on(dev.read_at(&mut rbuf[..len], off)).map_err(|e| format!("{e:?}")),
+                "write" => crate::world::block_on(dev.write_at(&wbuf[..len], off)).map(|_| len).map_err(|e| format!("{e:?}")),
+                _ => crate::world::block_on(dev.discard(off, len as u64)).map(|_| 0).map_err(|e| format!("{e:?}")),
             }))
             .map_err(panic_msg);
             let outcome = match &res {
